@@ -196,6 +196,8 @@ class Interp:
         self._cache = {}
         self.S = None
         self.silent = False
+        self.live_ghost = None
+        self.entry_env = None
         self.live_olds = []
         self.live_heap = None
 
@@ -218,6 +220,7 @@ class Interp:
         self.oid_counter = 0
         self.live_olds = []
         self.live_heap = None
+        self.live_ghost = None
         if prefix:
             self.silent_until = len(prefix) - 1
             self.silent = True
@@ -408,6 +411,8 @@ class Interp:
             return VTuple([self.fresh(s, f"{label}_{i}") for i, s in enumerate(spec[1:])])
         if isinstance(spec, (list, tuple)) and spec and spec[0] == "list":
             return self.fresh_list(spec[1], label)
+        if isinstance(spec, tuple) and spec and spec[0] == "callback":
+            return VFunc(None, builtin="callback", name=label, recv=VConst(spec))
         if not isinstance(spec, str):
             fe = getattr(self.world, "fresh_ext", None)
             r = fe(self, spec, label) if fe is not None else None
@@ -675,13 +680,16 @@ class Interp:
         return s
 
     def str_of(self, v, node):
-        if isinstance(v, (VStr, VInt, VBool, VAtom, VTuple, VConst, VFloat)):
+        if isinstance(v, (VStr, VInt, VBool, VAtom, VTuple, VConst, VFloat, VExc)):
             return
         if isinstance(v, VObj):
             self.world.object_str(self, v, node)
             return
         if isinstance(v, (VDyn, VOpaque, VList, VDict)):
             self.world.dyn_str(self, v, node)
+            return
+        h = getattr(self.world, "str_of_ext", None)
+        if h is not None and h(self, v, node):
             return
         raise Unsupported(f"str() of {v!r}")
 
@@ -1381,6 +1389,11 @@ class Interp:
                 g = self.spec_eval(clause, env, ref)
                 self.oblige("PRE", f"{ref.short}: {clause}", g, getattr(node, "lineno", 0))
                 self.assume(g)
+            if c.decreases and ref.qual == self.fnref.qual and self.entry_env is not None:
+                m_callee = self.as_int(self.spec_value_in(c.decreases, env, ref), node)
+                m_caller = self.as_int(self.spec_value_in(c.decreases, self.entry_env, ref), node)
+                self.oblige("VARIANT", f"recursive call decreases {c.decreases}",
+                            z3.And(m_callee >= 0, m_callee < m_caller), getattr(node, "lineno", 0))
         old = st.snapshot()
         old.old = None
         self.live_olds.append(old)
@@ -1395,6 +1408,9 @@ class Interp:
         if not st.spec:
             for m in (c.modifies or ()):
                 self.havoc_field(m, env)
+            for g in c.ghost_modifies:
+                self.ghost_get(g)
+                st.ghost[g] = VInt(z3.Int(self.namer.fresh("ghost_" + g)))
         # outcomes: normal + each declared exception class
         outcomes = ["normal"] + list(c.raises)
         if c.no_return:
@@ -1557,6 +1573,9 @@ class Interp:
                 st.mdom, st.mval, st.mnext = st.old.mdom, st.old.mval, st.old.mnext
             saved_live = self.live_heap
             self.live_heap = st.heap
+            saved_ghost, saved_live_ghost = st.ghost, self.live_ghost
+            self.live_ghost = st.ghost
+            st.ghost = st.old.ghost
             st.heap, st.lists, st.dicts = st.old.heap, st.old.lists, st.old.dicts
             saved_env = st.env
             st.env = dict(st.env)
@@ -1568,10 +1587,29 @@ class Interp:
                 st.mdom, st.mval, st.mnext = saved_maps
                 st.env = saved_env
                 self.live_heap = saved_live
+                st.ghost, self.live_ghost = saved_ghost, saved_live_ghost
+        if name == "ghost":
+            gname = node.args[0].value
+            return self.ghost_get(gname)
         if name in self.world.spec_funcs:
             args = [self.ev(a) for a in node.args]
             return self.world.spec_funcs[name](self, *args)
         return None
+
+    def ghost_get(self, gname):
+        st = self.st
+        if gname not in st.ghost:
+            v = VInt(z3.Int(self.namer.fresh("ghost_" + gname)))
+            st.ghost[gname] = v
+            for o in self.live_olds + ([st.old] if st.old is not None else []):
+                o.ghost.setdefault(gname, v)
+            if self.live_ghost is not None:
+                self.live_ghost.setdefault(gname, v)
+        return st.ghost[gname]
+
+    def ghost_bump(self, gname):
+        cur = self.ghost_get(gname)
+        self.st.ghost[gname] = VInt(cur.t + 1)
 
     # ---- statements ------------------------------------------------------------------
     def exec_block(self, stmts):
@@ -1803,8 +1841,20 @@ class Interp:
         names, attrs, calls = self.assigned_in(node.body + getattr(node, "orelse", []))
         names |= set(extra_names)
         st = self.st
+        # declared element specs of local lists (contract.locals)
+        c = self.contract if self.depth == 0 else None
+        if c is not None:
+            for lname, lspec in c.locals.items():
+                lv = st.env.get(lname)
+                if isinstance(lv, VList) and isinstance(lspec, tuple) and lspec[0] == "list":
+                    L = st.lists[lv.oid]
+                    if L.spec is None:
+                        L.spec = lspec[1]
         # attributes modified by callees (through their modifies clauses / known mutators)
         attrs |= self.world.callee_modifies(self, calls)
+        for g in self.world.callee_ghost_modifies(self, calls):
+            self.ghost_get(g)
+            st.ghost[g] = VInt(z3.Int(self.namer.fresh("ghost_" + g)))
         # lists mutated via methods or aliases bound to their methods
         mutated = self.world.mutated_lists(self, calls)
         for n in names:
@@ -1865,6 +1915,19 @@ class Interp:
         if not self.feasible():
             raise _PathEnd()
         self.exec_block(node.orelse)
+
+    def spec_value_in(self, expr, env, ref):
+        tree = self.world.parse_clause(expr)
+        st = self.st
+        saved = (st.env, st.spec)
+        st.env = dict(env)
+        st.spec = True
+        self.frames.append({"globals": ref.globals if ref else {}, "ref": None})
+        try:
+            return self.ev(tree)
+        finally:
+            self.frames.pop()
+            st.env, st.spec = saved
 
     def spec_value(self, expr, ref, extra=None):
         tree = self.world.parse_clause(expr)
